@@ -315,6 +315,46 @@ def licensed_tree(rng, lang='en', nleaves=None, full_tokens=True, plain_words=Fa
     return t
 
 
+_CHAIN_MEMO = {}
+
+
+def deep_chain(rng, lang='en', depth=200, full_tokens=True, plain_words=False):
+    """a licensed derivation of `depth` binary steps in which every step adds ONE leaf to the tree built so far (right- or
+    left-branching chain: the deepest derivations a sentence of depth+1 tokens can have)"""
+    from depccg.tree import Tree
+    binary, unary, table = grammar(lang)
+    inv = [Category.parse(s) for s in inventory(lang)]
+
+    def partners(c):
+        k = (lang, str(c))
+        if k not in _CHAIN_MEMO:
+            out = []
+            for m in inv:
+                if len(str(m)) > 40:
+                    continue
+                for left in (True, False):
+                    for r in (binary(m, c) if left else binary(c, m)):
+                        if len(str(r.cat)) <= len(str(c)) + 2:      # keep the category from growing along the chain
+                            out.append((m, left, r))
+            _CHAIN_MEMO[k] = out
+        return _CHAIN_MEMO[k]
+    for _ in range(50):
+        t = Tree.make_terminal(rand_token(rng, lang, full_tokens, plain_words), rng.choice(inv))
+        k = 0
+        while k < depth:
+            ps = partners(t.cat)
+            if not ps:
+                break
+            m, left, r = rng.choice(ps)
+            o = Tree.make_terminal(rand_token(rng, lang, full_tokens, plain_words), m)
+            l, rr = (o, t) if left else (t, o)
+            t = Tree.make_binary(r.cat, l, rr, r.op_string, r.op_symbol, r.head_is_left)
+            k += 1
+        if k == depth:
+            return t
+    raise RuntimeError(f'no chain of depth {depth} over the {lang} lexicon')
+
+
 def tree_sig(t):
     """structural signature used for distinctness counts"""
     if t.is_leaf:
